@@ -168,11 +168,11 @@ let handle (toks : String.t list) : String.t =
      | Err e -> "err " ^ err_name e
      | Ok ks -> "ok " ^ String.concat "," (List.map (fun k -> String.sub (hex_of_bytes (k_hash k)) 0 12) (order ks.(Array.length ks - 1))))
   | ["boc_parse"; h] ->
-    (match deserialize sha256 (bytes_of_hex h) with
+    (match boc_deserialize sha256 (bytes_of_hex h) with
      | Err e -> "err " ^ err_name e
      | Ok ks -> Printf.sprintf "ok %d %s" (List.length ks) (String.concat " " (List.map (fun k -> cell_text (k_tree k)) ks)))
   | ["boc_parse_hash"; h] ->
-    (match deserialize sha256 (bytes_of_hex h) with
+    (match boc_deserialize sha256 (bytes_of_hex h) with
      | Err e -> "err " ^ err_name e
      | Ok ks -> Printf.sprintf "ok %d %s" (List.length ks) (String.concat " " (List.map (fun k -> hex_of_bytes (k_hash k)) ks)))
   | ["s_boc"; h] ->
@@ -200,7 +200,7 @@ let handle (toks : String.t list) : String.t =
      | Ok ks ->
        let g i = ks.(int_of_string i) in
        (match check_account_hashes (g bp) (g sp) (g sa) (g cl) (bytes_of_hex h) with Ok _ -> "ok" | Err e -> "err " ^ err_name e))
-  | "tlb_run" :: ty :: rest ->
+  | ("tlb_run" as cmd) :: ty :: rest | ("tlb_run_ref" as cmd) :: ty :: rest ->
     (* tlb_run Type(args) <dag>: run the traced decision tree of Type on the root cell *)
     let (name, args) = (match String.index_opt ty '(' with
         | None -> (ty, [])
@@ -209,7 +209,7 @@ let handle (toks : String.t list) : String.t =
                        (List.filter (fun x -> x <> "") (String.split_on_char ',' (String.sub ty (i + 1) (String.length ty - i - 2)))))) in
     let (ns, _) = parse_dag rest in
     let trees = tree_of_dag ns in
-    (match run_type impl_table (nat_of_int 400) (coq_of_ocaml name) args trees.(Array.length trees - 1) with
+    (match run_type (if cmd = "tlb_run_ref" then ref_table else impl_table) (nat_of_int 400) (coq_of_ocaml name) args trees.(Array.length trees - 1) with
      | Err e -> "err " ^ err_name e
      | Ok (v, s) -> Printf.sprintf "ok %s rest=%d/%d" (show_pv v) (List.length s.s_bits) (List.length s.s_refs))
   | "msg_ser" :: info :: init :: body :: rest ->
@@ -261,6 +261,14 @@ let handle (toks : String.t list) : String.t =
         | VBuilder (b, r) -> "B" ^ str_of_bits b ^ "/" ^ commas (fun x -> string_of_int (int_of_nat x)) r
         | VNothing -> "?") in
     "ok " ^ String.concat " " (List.init n show)
+  | "tl_ser" :: rest ->
+    (match parse_tv rest with
+     | (TVObj (ty, fs), _) -> show_res hex_of_bytes (tl_serialize tl_table (nat_of_int 40) ty fs)
+     | _ -> "?badvalue")
+  | ["tl_des"; h] ->
+    (match tl_deserialize tl_table (nat_of_int 40) (bytes_of_hex h) with
+     | Err e -> "err " ^ err_name e
+     | Ok (v, n) -> Printf.sprintf "ok %d %s" (int_of_nat n) (show_tv v))
   | "senc" :: rest ->
     let (ns, ops) = parse_dag rest in
     let trees = tree_of_dag ns in
